@@ -91,6 +91,8 @@ pub enum Event {
     OpStart(usize),
     OpEnd(usize),
     WindowOpen,
+    /// density evaluations per chain at the moment a pause window opens
+    EvalSnapshot(Vec<(usize, u64)>),
     WindowClose,
     FaultFired(String),
     /// the chain's job began (it asked the model for its math)
@@ -105,12 +107,16 @@ pub struct ExecLog {
     /// canonical rows per chain as recorded
     pub rows: BTreeMap<usize, Vec<String>>,
     pub who_by_task: HashMap<usize, usize>,
+    /// density evaluations made so far, per chain
+    pub chain_evals: BTreeMap<usize, u64>,
 }
 
 thread_local! {
     pub static LOG: RefCell<ExecLog> = RefCell::new(ExecLog::default());
     /// density evaluations of chains since the last reset (used to size fault sweeps)
     pub static EVALS: std::cell::Cell<u64> = const { std::cell::Cell::new(0) };
+    /// density evaluations the last sequential reference needed until set_position succeeded
+    pub static LAST_SETUP_EVALS: std::cell::Cell<u64> = const { std::cell::Cell::new(0) };
 }
 
 pub fn log_reset() {
@@ -126,6 +132,8 @@ pub fn log_len() -> usize {
 thread_local! {
     /// true while the sequential reference runs (outside any shuttle execution)
     static OUTSIDE_SHUTTLE: std::cell::Cell<bool> = const { std::cell::Cell::new(false) };
+    /// who calls `Model::math` while a reference runs outside the scheduler (0 controller, k+1 chain k)
+    static REF_WHO: std::cell::Cell<usize> = const { std::cell::Cell::new(0) };
 }
 
 fn task_key() -> usize {
@@ -170,6 +178,8 @@ pub struct HDens<'m> {
     pub who: usize,
     pub plan: &'m FaultPlan,
     pub n_eval: u64,
+    /// mean of the first coordinate, drawn from the generator `Model::math` was given
+    pub shift: f64,
 }
 
 impl HasDims for HDens<'_> {
@@ -196,6 +206,7 @@ impl CpuLogpFunc for HDens<'_> {
         EVALS.with(|e| e.set(e.get() + 1));
         if self.who > 0 {
             let chain = self.who - 1;
+            LOG.with(|l| *l.borrow_mut().chain_evals.entry(chain).or_insert(0) += 1);
             for (c, at, kind) in &self.plan.dens {
                 if *c == chain && (at.is_none() || *at == Some(k)) {
                     if at.is_some() || k < 3 {
@@ -212,7 +223,7 @@ impl CpuLogpFunc for HDens<'_> {
         let sd = [1.0, 2.0];
         let mut lp = 0.0;
         for i in 0..DIM {
-            let z = position[i] / sd[i];
+            let z = (position[i] - if i == 0 { self.shift } else { 0.0 }) / sd[i];
             lp -= 0.5 * z * z;
             gradient[i] = -z / sd[i];
         }
@@ -235,20 +246,12 @@ impl CpuLogpFunc for HDens<'_> {
 pub struct HModel {
     pub seed: u64,
     pub plan: FaultPlan,
-    /// first u64 of stream s (s = 0 controller, s = chain+1) of ChaCha8(seed): identifies the caller
-    tags: Vec<u64>,
+    n_chains: usize,
 }
 
 impl HModel {
     pub fn new(seed: u64, n_chains: usize, plan: FaultPlan) -> HModel {
-        let tags = (0..=n_chains as u64)
-            .map(|s| {
-                let mut r = ChaCha8Rng::seed_from_u64(seed);
-                r.set_stream(s);
-                r.next_u64()
-            })
-            .collect();
-        HModel { seed, plan, tags }
+        HModel { seed, plan, n_chains }
     }
 }
 
@@ -256,16 +259,24 @@ impl Model for HModel {
     type Math<'model> = CpuMath<HDens<'model>>;
 
     fn math<R: Rng + ?Sized>(&self, rng: &mut R) -> Result<Self::Math<'_>> {
-        // the caller is identified by the first value of the stream it passes in (this consumes
-        // one u64 of the chain's stream, in the parallel run and in the sequential reference alike)
+        // the caller is identified by the pool job it runs in (the sampler submits the chains in
+        // order: job k is chain k; outside a pool job it is the controller) - not by anything it
+        // passes in. The density DEPENDS on the generator it is given (the target's mean is drawn
+        // from it), so a chain that hands `Model::math` another stream samples another target.
         let tag = rng.next_u64();
-        let who = self.tags.iter().position(|t| *t == tag).unwrap_or(usize::MAX);
+        let who = if OUTSIDE_SHUTTLE.with(|c| c.get()) {
+            REF_WHO.with(|c| c.get())
+        } else {
+            match sched_facade::current_job_index() {
+                Some(k) => k + 1,
+                None => 0,
+            }
+        };
         LOG.with(|l| l.borrow_mut().who_by_task.insert(task_key(), who));
-        if who == usize::MAX {
-            return Err(anyhow!(
-                "HARNESS: Model::math called with an unexpected random stream (tag {tag:#x})"
-            ));
+        if who > self.n_chains {
+            return Err(anyhow!("HARNESS: Model::math called from pool job {} but the run has {} chains", who - 1, self.n_chains));
         }
+        let shift = (tag >> 11) as f64 / (1u64 << 53) as f64 - 0.5;
         if who > 0 {
             log_event(Event::ChainStarted { chain: who - 1 });
         }
@@ -277,6 +288,7 @@ impl Model for HModel {
             who,
             plan: &self.plan,
             n_eval: 0,
+            shift,
         }))
     }
 
@@ -524,10 +536,13 @@ pub fn sequential_reference<S: Settings>(
     let saved = LOG.with(|l| std::mem::take(&mut *l.borrow_mut()));
     let was_outside = OUTSIDE_SHUTTLE.with(|c| c.replace(true));
     let model = HModel::new(settings.seed(), n_chains, plan.clone());
+    let evals_at_start = EVALS.with(|e| e.get());
+    LAST_SETUP_EVALS.with(|c| c.set(u64::MAX));
     let result = (|| {
         let mut rows = vec![];
         let mut rng = ChaCha8Rng::seed_from_u64(settings.seed());
         rng.set_stream(chain as u64 + 1);
+        REF_WHO.with(|c| c.set(chain + 1));
         let logp = match model.math(&mut rng) {
             Ok(m) => m,
             Err(e) => return RefOutcome::Failed(rows, format!("{e:#}")),
@@ -550,6 +565,7 @@ pub fn sequential_reference<S: Settings>(
         if let Some(e) = error {
             return RefOutcome::Failed(rows, format!("All initialization points failed: {e:#}"));
         }
+        LAST_SETUP_EVALS.with(|c| c.set(EVALS.with(|e| e.get()) - evals_at_start));
         let draws = settings.hint_num_tune() + settings.hint_num_draws();
         for _ in 0..draws {
             let (_p, mut draw_data, mut stats, info) = match sampler.expanded_draw() {
@@ -581,9 +597,13 @@ pub fn stream_check<S: Settings>(settings: &S) -> Option<String> {
     let was_outside = OUTSIDE_SHUTTLE.with(|c| c.replace(true));
     let model = HModel::new(settings.seed(), 2, FaultPlan::default());
     let run = |stream: u64| -> Result<Vec<String>, String> {
+        // the same density for all three (the model's mean comes from the generator it is given)
+        let mut mrng = ChaCha8Rng::seed_from_u64(settings.seed());
+        mrng.set_stream(1);
+        REF_WHO.with(|c| c.set(1));
+        let logp = model.math(&mut mrng).map_err(|e| format!("{e:#}"))?;
         let mut rng = ChaCha8Rng::seed_from_u64(settings.seed());
         rng.set_stream(stream);
-        let logp = model.math(&mut rng).map_err(|e| format!("{e:#}"))?;
         let dim = logp.dim();
         let mut sampler = settings.new_chain(0, logp, &mut rng);
         let start: Vec<f64> = (0..dim).map(|i| 0.3 - 0.7 * i as f64).collect();
